@@ -19,6 +19,7 @@ import (
 // is executed: the variants are analysed, not run.
 
 type selfResult struct {
+	Skipped  int      `json:"stale_variants_skipped"`
 	Variants int      `json:"variants"`
 	Caught   int      `json:"breaking_caught"`
 	Silent   int      `json:"equivalent_silent"`
@@ -58,6 +59,7 @@ func selfValidate(c *Ctx, verifDir, repo string) selfResult {
 		e    expectEntry
 		line string
 		ok   bool
+		skip bool
 	}
 	results := make([]out, len(mine))
 	sem := make(chan struct{}, 6)
@@ -95,7 +97,8 @@ func selfValidate(c *Ctx, verifDir, repo string) selfResult {
 				}
 			}
 			if err := apply(patch); err != nil {
-				results[i].line = e.Patch + ": does not apply to the current tree (stale variant)"
+				results[i].line = e.Patch + ": does not apply to the current tree (stale variant, skipped)"
+				results[i].skip = true
 				return
 			}
 			vo := filepath.Join(dir, ".verif-out")
@@ -136,6 +139,11 @@ func selfValidate(c *Ctx, verifDir, repo string) selfResult {
 	wg.Wait()
 	sort.Slice(results, func(i, j int) bool { return results[i].e.Patch < results[j].e.Patch })
 	for _, r := range results {
+		if r.skip {
+			res.Skipped++
+			res.Lines = append(res.Lines, "skip "+r.line)
+			continue
+		}
 		res.Variants++
 		mark := "ok  "
 		if !r.ok {
